@@ -28,7 +28,7 @@ fn filter_odd_seq(enr: &Enr) -> bool {
     enr.seq() % 2 == 1
 }
 
-/// Record shapes. `shape`: 0 v4, 1 none, 2 v6 only, 3 both, 4 v4-mapped v6 only, 5 v4 + tcp (refused by filter_no_tcp)
+/// Record shapes. `shape`: 0 v4, 1 none, 2 v6 only, 3 both, 4 v4-mapped v6 only, 5 v4 + tcp (refused by filter_no_tcp), 6 ip4 without udp port
 fn shaped(identity: usize, seq: u64, shape: u32) -> Enr {
     let a = peer_addr(identity);
     let ip4 = match a.ip() {
@@ -47,6 +47,8 @@ fn shaped(identity: usize, seq: u64, shape: u32) -> Enr {
         2 => ident::RecSpec { ident: identity, seq, ip4: None, ip6: Some((ip6, 9000)), pad: 0 },
         3 => ident::RecSpec { ident: identity, seq, ip4: Some((ip4, 9000)), ip6: Some((ip6, 9000)), pad: 0 },
         4 => ident::RecSpec { ident: identity, seq, ip4: None, ip6: Some((mapped, 9000)), pad: 0 },
+        // an IPv4 address without a UDP port: not contactable over IPv4
+        6 => ident::RecSpec { ident: identity, seq, ip4: Some((ip4, 0)), ip6: None, pad: 0 },
         _ => ident::RecSpec { ident: identity, seq, ip4: Some((ip4, 9000)), ip6: None, pad: 7 },
     };
     if shape == 5 {
@@ -155,7 +157,7 @@ async fn run_async(ctx: &mut Ctx) {
                 let stored = prev_table.get(&nid.raw()).cloned();
                 let base = old_seq.max(stored.as_ref().map(|e| e.seq()).unwrap_or(0)).max(1);
                 let seq = base + ctx.tape.choose(3) as u64;
-                let shape = *ctx.tape.pick(&[0u32, 0, 1, 2, 3, 4, 5]);
+                let shape = *ctx.tape.pick(&[0u32, 0, 1, 2, 3, 4, 5, 6]);
                 let enr = match &stored {
                     Some(e) if e.seq() == seq => e.clone(),
                     _ => shaped(id, seq, shape),
@@ -180,7 +182,7 @@ async fn run_async(ctx: &mut Ctx) {
                     1 => old_seq.saturating_sub(1).max(1),
                     _ => old_seq + 1,
                 };
-                let shape = *ctx.tape.pick(&[0u32, 1, 2, 3, 5]);
+                let shape = *ctx.tape.pick(&[0u32, 1, 2, 3, 5, 6]);
                 let enr = shaped(id, seq, shape);
                 let r = sw.d.add_enr(enr);
                 ctx.ev(format!("t={} add_enr #{id} seq={seq} shape={shape} -> {r:?}", now_ms()));
@@ -229,7 +231,7 @@ async fn run_async(ctx: &mut Ctx) {
                                     1 => s0.max(1),
                                     _ => s0 + 1 + ctx.tape.choose(2) as u64,
                                 };
-                                let shape = *ctx.tape.pick(&[0u32, 0, 1, 2, 3, 4, 5]);
+                                let shape = *ctx.tape.pick(&[0u32, 0, 1, 2, 3, 4, 5, 6]);
                                 if !introduced.contains(&peer_id(u).raw()) {
                                     only_discovered.insert(peer_id(u).raw());
                                 }
